@@ -315,10 +315,9 @@ Examples:
     # create function to replace "_" with original variables
     def restore(variables, mystring):
         if list_or_tuple_or_ndarray(variables):
-            vars = get_variables(mystring,'_')
-            indices = [int(v.strip('_')) for v in vars]
-            for i in reversed(range(len(vars))):
-                mystring = mystring.replace(vars[i],variables[indices[i]])
+            import re #NOTE: one pass, whole placeholders only ('_1' vs '_10')
+            mystring = re.sub(r'(?<![A-Za-z0-9_])_(\d+)', \
+                              lambda m: variables[int(m.group(1))], mystring)
         return mystring
 
     # default is _locals with sympy imported
@@ -506,10 +505,9 @@ Examples:
     # create function to replace "_" with original variables
     def restore(variables, mystring):
         if list_or_tuple_or_ndarray(variables):
-            vars = get_variables(mystring,'_')
-            indices = [int(v.strip('_')) for v in vars]
-            for i in reversed(range(len(vars))):
-                mystring = mystring.replace(vars[i],variables[indices[i]])
+            import re #NOTE: one pass, whole placeholders only ('_1' vs '_10')
+            mystring = re.sub(r'(?<![A-Za-z0-9_])_(\d+)', \
+                              lambda m: variables[int(m.group(1))], mystring)
         return mystring
 
     # default is _locals with sympy imported
@@ -789,10 +787,9 @@ Examples:
     # create function to replace "_" with original variables
     def restore(variables, mystring):
         if list_or_tuple_or_ndarray(variables):
-            vars = get_variables(mystring,'_')
-            indices = [int(v.strip('_')) for v in vars]
-            for i in reversed(range(len(vars))):
-                mystring = mystring.replace(vars[i],variables[indices[i]])
+            import re #NOTE: one pass, whole placeholders only ('_1' vs '_10')
+            mystring = re.sub(r'(?<![A-Za-z0-9_])_(\d+)', \
+                              lambda m: variables[int(m.group(1))], mystring)
         return mystring
 
     locals = kwds['locals'] if 'locals' in kwds else None
